@@ -333,22 +333,68 @@ theorem sound_get {env : Env Doc} {tol : List Str} {c : Cache Doc} (hs : Sound e
     Sound env tol (c.get k).2 :=
   sound_sub' env tol c _ hs (Cache.get_mem c k)
 
+/-! ### Cache keys -/
+
+theorem cacheKey_inj {tol : List Str} {u u' : Url} (h : cacheKey tol u = cacheKey tol u') : u = u' := by
+  unfold cacheKey at h
+  have := List.append_cancel_left h
+  simpa using this
+
+/-- Two texts `a ++ s :: u` and `a' ++ s :: u'` whose heads `a`, `a'` do not contain the
+    separator `s` agree only if the heads agree. -/
+theorem append_sep_inj {α : Type} {s : α} : ∀ {a a' u u' : List α}, s ∉ a → s ∉ a' →
+    a ++ s :: u = a' ++ s :: u' → a = a'
+  | [], [], _, _, _, _, _ => rfl
+  | [], y :: ys, _, _, _, h', h => by
+    simp only [List.nil_append, List.cons_append, List.cons.injEq] at h
+    exact absurd (h.1 ▸ List.mem_cons_self) h'
+  | x :: xs, [], _, _, h', _, h => by
+    simp only [List.nil_append, List.cons_append, List.cons.injEq] at h
+    exact absurd (h.1 ▸ List.mem_cons_self) h'
+  | x :: xs, y :: ys, _, _, hx, hy, h => by
+    simp only [List.cons_append, List.cons.injEq] at h
+    have := append_sep_inj (fun m => hx (List.mem_cons_of_mem _ m))
+      (fun m => hy (List.mem_cons_of_mem _ m)) h.2
+    rw [h.1, this]
+
+theorem cacheKey_disjoint' (tol tol' : List Str)
+    (h : List.intercalate [','] tol ≠ List.intercalate [','] tol')
+    (hs : ' ' ∉ List.intercalate [','] tol) (hs' : ' ' ∉ List.intercalate [','] tol')
+    (u u' : Url) : cacheKey tol u ≠ cacheKey tol' u' := by
+  intro heq
+  unfold cacheKey at heq
+  exact h (append_sep_inj hs hs' heq)
+
 theorem sound_add_doc {env : Env Doc} {tol : List Str} {c : Cache Doc} (hs : Sound env tol c)
-    {u : Url} {d : Doc} (h : Chain env tol u 0 d u) : Sound env tol (c.add u (.doc d u)) := by
-  intro k e he
-  rcases Cache.add_mem c u _ _ he with heq | hmem
-  · cases heq; exact ⟨rfl, h⟩
-  · exact hs k e hmem
+    {u : Url} {d : Doc} (h : Chain env tol u 0 d u) :
+    Sound env tol (c.add (cacheKey tol u) (.doc d u)) := by
+  intro k e he u' hk
+  rcases Cache.add_mem c _ _ _ he with heq | hmem
+  · cases heq
+    cases cacheKey_inj hk
+    exact ⟨rfl, h⟩
+  · exact hs k e hmem u' hk
 
 theorem sound_add_redirect {env : Env Doc} {tol : List Str} {c : Cache Doc} (hs : Sound env tol c)
     {u t : Url} {resp v : Str} (hh : env.https u = true) (hsv : env.serve u = some resp)
     (he : exchange tol resp = .redirect v) (hr : env.resolve u v = some t) :
-    Sound env tol (c.add u (.redirect t)) := by
-  intro k e hmem
-  rcases Cache.add_mem c u _ _ hmem with heq | hmem
-  · cases heq; exact ⟨hh, resp, v, hsv, he, hr⟩
-  · exact hs k e hmem
+    Sound env tol (c.add (cacheKey tol u) (.redirect t)) := by
+  intro k e hmem u' hk
+  rcases Cache.add_mem c _ _ _ hmem with heq | hmem
+  · cases heq
+    cases cacheKey_inj hk
+    exact ⟨hh, resp, v, hsv, he, hr⟩
+  · exact hs k e hmem u' hk
 
+/-- A cache all of whose entries either come from a cache sound for `tol'` or are filed under
+    keys that no request of kind `tol'` uses is sound for `tol'`. -/
+theorem sound_of_foreign {env : Env Doc} {tol' : List Str} {c c' : Cache Doc}
+    (hs : Sound env tol' c) (P : Url → Prop) (hP : ∀ u', ¬ P (cacheKey tol' u'))
+    (hsub : ∀ e, e ∈ c'.entries → e ∈ c.entries ∨ P e.1) : Sound env tol' c' := by
+  intro k e he u' hk
+  rcases hsub _ he with hmem | hp
+  · exact hs k e hmem u' hk
+  · exact absurd (hk ▸ hp) (hP u')
 
 theorem sound_of_get {env : Env Doc} {tol : List Str} {c c' : Cache Doc} {u : Url}
     {x : Option (Entry Doc)} (hs : Sound env tol c) (h : c.get u = (x, c')) : Sound env tol c' := by
@@ -363,7 +409,7 @@ theorem get_spec (env : Env Doc) (tol : List Str) (b : Nat) (c : Cache Doc) (u :
   fun_induction get env tol b c u with
   | case1 budget cache u d0 src0 cache' hget =>
     refine ⟨sound_of_get hs hget, fun d src => ?_⟩
-    obtain ⟨rfl, hch⟩ := hs _ _ (mem_of_get hget)
+    obtain ⟨rfl, hch⟩ := hs _ _ (mem_of_get hget) u rfl
     constructor
     · intro h; cases h; exact ⟨0, Nat.zero_le _, hch⟩
     · rintro ⟨k, _, h⟩
@@ -371,7 +417,7 @@ theorem get_spec (env : Env Doc) (tol : List Str) (b : Nat) (c : Cache Doc) (u :
       rfl
   | case2 cache u t cache' hget =>
     refine ⟨sound_of_get hs hget, fun d src => ?_⟩
-    obtain ⟨hh, resp, v, hsv, he, hr⟩ := hs _ _ (mem_of_get hget)
+    obtain ⟨hh, resp, v, hsv, he, hr⟩ := hs _ _ (mem_of_get hget) u rfl
     constructor
     · intro h; cases h
     · rintro ⟨k, hk, h⟩
@@ -380,7 +426,7 @@ theorem get_spec (env : Env Doc) (tol : List Str) (b : Nat) (c : Cache Doc) (u :
   | case3 cache u t cache' hget b ih =>
     obtain ⟨ih1, ih2⟩ := ih (sound_of_get hs hget)
     refine ⟨ih1, fun d src => ?_⟩
-    obtain ⟨hh, resp, v, hsv, he, hr⟩ := hs _ _ (mem_of_get hget)
+    obtain ⟨hh, resp, v, hsv, he, hr⟩ := hs _ _ (mem_of_get hget) u rfl
     rw [ih2]
     constructor
     · rintro ⟨k, hk, h⟩
@@ -476,6 +522,48 @@ theorem get_requests (env : Env Doc) (tol : List Str) (b : Nat) (c : Cache Doc) 
     · exact hh'
     · exact ih.2 r hr
 
+/-- Everything a fetch of kind `tol` leaves in the cache was there before or is filed under a
+    key of kind `tol` (it only ever adds under its own keys; the rest is kept, reordered or
+    evicted). -/
+theorem get_cache_mem (env : Env Doc) (tol : List Str) (b : Nat) (c : Cache Doc) (u : Url) :
+    ∀ e, e ∈ (get env tol b c u).cache.entries → e ∈ c.entries ∨ ∃ x, e.1 = cacheKey tol x := by
+  have hg : ∀ {c c' : Cache Doc} {k : Url} {x : Option (Entry Doc)}, c.get k = (x, c') →
+      ∀ e, e ∈ c'.entries → e ∈ c.entries := by
+    intro c c' k x h e he
+    have := Cache.get_mem c k e; rw [h] at this; exact this he
+  fun_induction get env tol b c u with
+  | case1 budget cache u d0 src0 cache' hget
+  | case2 cache u t cache' hget
+  | case4 budget cache u cache' hget
+  | case5 budget cache u cache' hget
+  | case6 budget cache u cache' hget
+  | case8 budget cache u cache' hget
+  | case9 budget cache u cache' hget
+  | case10 cache u cache' hget => exact fun e he => Or.inl (hg hget e he)
+  | case3 cache u t cache' hget b ih =>
+    intro e he
+    rcases ih e he with h | h
+    · exact Or.inl (hg hget e h)
+    · exact Or.inr h
+  | case7 budget cache u cache' hget hh resp hsv body he d0 hd =>
+    intro e he
+    rcases Cache.add_mem _ _ _ e he with rfl | h
+    · exact Or.inr ⟨u, rfl⟩
+    · exact Or.inl (hg hget e h)
+  | case11 cache u cache' hget hh resp hsv v he t hr b r ih =>
+    intro e he
+    rcases ih e he with h | h
+    · rcases Cache.add_mem _ _ _ e h with rfl | h
+      · exact Or.inr ⟨u, rfl⟩
+      · exact Or.inl (hg hget e h)
+    · exact Or.inr h
+
+theorem get_keeps_sound_for_others' (env : Env Doc) (tol tol' : List Str)
+    (hdis : ∀ u u', cacheKey tol u ≠ cacheKey tol' u') (b : Nat) (c : Cache Doc) (u : Url)
+    (hs : Sound env tol' c) : Sound env tol' (get env tol b c u).cache :=
+  sound_of_foreign hs (fun k => ∃ x, k = cacheKey tol x)
+    (fun u' ⟨x, hx⟩ => hdis x u' hx.symm) (get_cache_mem env tol b c u)
+
 theorem get_iff_chain' (env : Env Doc) (tol : List Str) (b : Nat) (c : Cache Doc) (u : Url)
     (hs : Sound env tol c) (d : Doc) (src : Url) :
     ((∃ st, st = get env tol b c u ∧ st.res = .ok d src) ↔ ∃ k, k ≤ b ∧ Chain env tol u k d src) := by
@@ -483,6 +571,13 @@ theorem get_iff_chain' (env : Env Doc) (tol : List Str) (b : Nat) (c : Cache Doc
   constructor
   · rintro ⟨_, rfl, h⟩; exact h
   · intro h; exact ⟨_, rfl, h⟩
+
+theorem cross_kind_transparent' (env : Env Doc) (tol tol' : List Str)
+    (hdis : ∀ u u', cacheKey tol u ≠ cacheKey tol' u') (b b' : Nat) (c : Cache Doc) (u u' : Url)
+    (hs : Sound env tol' c) (d : Doc) (src : Url) :
+    ((∃ st, st = get env tol' b' (get env tol b c u).cache u' ∧ st.res = .ok d src) ↔
+      ∃ k, k ≤ b' ∧ Chain env tol' u' k d src) :=
+  get_iff_chain' env tol' b' _ u' (get_keeps_sound_for_others' env tol tol' hdis b c u hs) d src
 
 theorem get_err_of_no_chain' (env : Env Doc) (tol : List Str) (b : Nat) (c : Cache Doc) (u : Url)
     (hs : Sound env tol c) (hno : ¬ ∃ k d src, k ≤ b ∧ Chain env tol u k d src) :
